@@ -42,7 +42,7 @@ def run_impl(gd: GDef, cfg: dict, opts: dict, starts=None, stop=None, limit_s=60
     limit (a loaded machine or a tiny batch size on a big orbit is slow, not wrong); only a second timeout is reported."""
     out = _run_impl(gd, cfg, opts, starts, stop, limit_s)
     if "error" in out and out["error"].startswith("Timeout"):
-        out = _run_impl(gd, cfg, opts, starts, stop, limit_s * 8 + 120)
+        out = _run_impl(gd, cfg, opts, starts, stop, limit_s * 4 + 60)
         if "error" not in out:
             out["slow"] = True
     return out
